@@ -407,4 +407,54 @@ def runOneW (f : Gen → Op → Gen × Out) (g : Gen) : List Op → List Out
   | [] => []
   | op :: ops => let (g', o) := f g op; o :: runOneW f g' ops
 
+/-! ### Phase 5: how `pipes.filters.Reservoir` walks the stream
+
+`Reservoir(count,seed).filter` creates `CobaRandom(seed)`, shuffles the first `count` items in place and then
+walks `batched_randoms_forever(20)`: again and again `randoms(3*batch_size)`, handed out as the slices
+`randoms[i:i+3]` for `i in range(0,3*batch_size,3)`.  Uniforms are represented by their numerators. -/
+
+/-- the generator state after `n` uniforms have been drawn -/
+def adv : Nat → Nat → Nat
+  | s, 0 => s
+  | s, n+1 => adv (next s) n
+
+/-- numerators of the values of `randoms(n)` -/
+def unums : Nat → Nat → List Nat
+  | _, 0 => []
+  | s, n+1 => unum s :: unums (next s) n
+
+/-- `[randoms[i:i+3] for i in range(0,len(randoms),3)]` restricted to complete triples (what `for r1,r2,r3 in` accepts;
+also what `zip(it,it,it)` yields) -/
+def chunk3 : List Nat → List (Nat × Nat × Nat)
+  | a :: b :: c :: t => (a, b, c) :: chunk3 t
+  | _ => []
+
+/-- the triples handed out by the first `k` batches when every batch draws `n` uniforms (the code: `n = 3*batch_size`) -/
+def batchedTriples (n : Nat) : Nat → Nat → List (Nat × Nat × Nat)
+  | _, 0 => []
+  | s, k+1 => chunk3 (unums s n) ++ batchedTriples n (adv s n) k
+
+/-- spec: `j` consecutive triples of the seed's stream, no value skipped, none used twice -/
+def streamTriples : Nat → Nat → List (Nat × Nat × Nat)
+  | _, 0 => []
+  | s, j+1 => (unum s, unum (next s), unum (next (next s))) :: streamTriples (next (next (next s))) j
+
+/-- what Reservoir consumes: the in-place shuffle of the first `count` items, then `k` batches of `batch` triples -/
+def reservoirWalk (s count batch k : Nat) : List Nat × List (Nat × Nat × Nat) :=
+  let r := shuffle s (List.range count)
+  (r.2, batchedTriples (3 * batch) r.1 k)
+
+/-- literals of `Reservoir.filter` the walk depends on (translator tie, `Generated/C05Reservoir.lean`) -/
+def resNums : List (String × Int) :=
+  [("draw_mult", 3), ("range_mult", 3), ("range_step", 3), ("slice_width", 3), ("targets", 3), ("batch_size", 20),
+   ("shuffle_inplace", 1)]
+def resBatch : Nat := 20
+
+/-- the Box–Muller expressions of coba/random.py the model (`gauss1`, `GaussDesc`, `Lemmas/C05Real.lean`) is written for: which
+function is applied to what, the order of the two yields, how `mu`/`sigma` enter (translator tie beyond the two coefficients of `srcNums`) -/
+def srcGauss : List (String × String) :=
+  [("R.outer", "math.sqrt"), ("R.inner", "math.log"), ("R.arg", "U"), ("S.const", "math.pi"), ("S.draw", "next(self._randu)"),
+   ("U.draw", "next(self._randu)"), ("yield.0", "R*math.cos(S)"), ("yield.1", "R*math.sin(S)"),
+   ("gauss.scale", "self.gausses(1,mu,sigma)[0]"), ("gausses.scale", "mu+sigma*g for g in islice(self._randg,n)")]
+
 end Coba.C05
